@@ -334,8 +334,8 @@ def parse_concentration(s: str, wv_units: str = None):
             raise Reject('bad denominator')
         dv = parse_number(dt[0])
         du = dt[1]
-        if dv == 0:
-            raise Reject('zero denominator')
+        if dv == 0 or not math.isfinite(dv):
+            raise Reject('zero or infinite denominator')
         v /= dv
     elif len(dt) == 1:
         du = dt[0]
